@@ -26,7 +26,7 @@ pub enum ReplyFault {
     IoErr(u16),
     /// a status line (2xx or not) followed by a header section that is not one: 0 a line without a colon, 1 a lone LF where
     /// the empty line should be (then the connection ends), 2..4 a status token with a sign or leading zeros in front of the
-    /// three digits: whatever the status says, no well-formed head was read
+    /// three digits, 5..6 empty lines in front of the status line: whatever the status says, no well-formed head was read
     BadHead(u8),
 }
 
@@ -472,7 +472,7 @@ Oracle P1-P5 over the ordered write/serve log. non-trivial = non-2xx with body >
                 1 => Just(ReplyFault::CutAll),
                 1 => any::<u32>().prop_map(ReplyFault::Garbage),
                 1 => any::<u16>().prop_map(ReplyFault::IoErr),
-                2 => (0u8..5).prop_map(ReplyFault::BadHead),
+                2 => (0u8..7).prop_map(ReplyFault::BadHead),
             ],
         )
             .prop_map(|(status, reason, headers, body, fault)| Reply { status, reason, headers, body, fault, declare: 0 });
@@ -600,7 +600,13 @@ Oracle P1-P5 over the ordered write/serve log. non-trivial = non-2xx with body >
                 ctx.label("reply:malformed-header-section");
                 let eol = head.windows(2).position(|w| w == b"\r\n").unwrap() + 2;
                 let mut bad = head[..eol].to_vec();
-                match kind % 5 {
+                match kind % 7 {
+                    k @ 5..=6 => {
+                        // empty lines in front of the status line: what follows them is not the start of a reply
+                        bad = if k == 5 { b"\r\n".to_vec() } else { b"\n\r\n".to_vec() };
+                        bad.extend_from_slice(&head);
+                        ctx.label("reply:empty-lines-before-the-status-line");
+                    }
                     k @ 2..=4 => {
                         // the status token is not three digits (a sign, leading zeros): not a status, whatever number it looks like
                         let sp = bad.iter().position(|b| *b == b' ').unwrap() + 1;
